@@ -380,6 +380,63 @@ inline void make_variants(const Reply &base, vh::Rng &r, std::vector<Dg> &out, b
     }
 }
 
+//! a well-formed reply longer than the client's 4096-byte receive buffer: the question, 0-2 ordinary A records, padding records of
+//! unknown type up to a chosen offset next to 4096, then a "boundary" A or CNAME record that straddles / starts at / lies behind
+//! offset 4096, then 0-3 more A records and optional padding (total 4097..~9000 bytes). A reader that believes the datagram's
+//! real length instead of what its buffer holds walks straight across the end of the buffer.
+inline Bytes make_oversized(vh::Rng &r, uint16_t id, const std::string &domain, std::string &layout) {
+    Reply R;
+    put16(R.b, id); put16(R.b, 0x8180);
+    put16(R.b, 1); put16(R.b, 0); put16(R.b, 0); put16(R.b, 0);
+    put_name(R, split_domain(domain), nullptr);
+    put16(R.b, 1); put16(R.b, 1);
+    unsigned an = 0;
+    auto a_rec = [&]() { RecOpen o = begin_rec(R, r, 1, rand_ttl(r), true); for (int i = 0; i < 4; ++i) R.b.push_back(uint8_t(1 + r.below(254))); end_rec(R, o); ++an; };
+    auto pad_rec = [&](size_t rdlen) {
+        static const int types[] = {16, 99, 41, 13, 255};
+        RecOpen o = begin_rec(R, r, r.pick(types), rand_ttl(r), true);
+        for (size_t i = 0; i < rdlen; ++i) R.b.push_back(r.byte());
+        end_rec(R, o); ++an;
+    };
+    //! pad with records (12 bytes of owner pointer + header each) so that the next record starts exactly at `target`;
+    //! needs target - size == 0 or >= 12 on entry
+    auto pad_to = [&](size_t target, size_t maxrd) {
+        while (R.b.size() < target) {
+            size_t rd_exact = target - R.b.size() - 12;
+            if (rd_exact <= maxrd) { pad_rec(rd_exact); break; }
+            size_t rd = r.below(maxrd + 1);
+            if (rd_exact - rd < 12) rd = rd_exact - 12;     // leave room for exactly one empty closing record
+            pad_rec(rd);
+        }
+    };
+    unsigned pre = r.below(3);
+    for (unsigned i = 0; i < pre; ++i) a_rec();
+    unsigned k = r.below(6);
+    size_t target;       // start of the boundary record (owner pointer at target, header at +2, RDATA at +12)
+    bool cname = false, small = false;
+    switch (k) {
+        case 0: target = 4096 - 12 - (1 + r.below(3)); layout = "a-rdata-straddles-4096"; break;       // RDATA at 4093..4095
+        case 1: target = 4096 - (1 + r.below(11)); layout = "record-header-straddles-4096"; break;
+        case 2: target = 4096; layout = "record-starts-at-4096"; break;
+        case 3: target = 4097 + r.below(400); layout = "record-behind-4096"; break;
+        case 4: target = 4096 - 12 - r.below(6); cname = true; layout = "cname-straddles-4096"; break;
+        default: target = 4096 - 12 - (1 + r.below(3)); small = true; layout = "run-of-small-records-then-a-straddling"; break;
+    }
+    pad_to(target, small ? 120 : 1000);
+    if (cname) {
+        RecOpen o = begin_rec(R, r, 5, rand_ttl(r), true);
+        std::vector<std::string> ls;
+        for (int i = 0; i < 3; ++i) ls.push_back(plain_label(r, 3 + r.below(8)));
+        put_name(R, ls, nullptr);
+        end_rec(R, o); ++an;
+    } else a_rec();
+    unsigned post = r.below(4);
+    for (unsigned i = 0; i < post; ++i) a_rec();
+    if (r.chance(1, 2)) { size_t more = r.below(4500); while (more > 1100) { pad_rec(r.below(1000)); more -= 1000; } a_rec(); }
+    set16(R.b, 6, an);
+    return R.b;
+}
+
 //! one malformed variant that cannot drive an unfixed reader into deep recursion (for histories)
 inline Bytes safe_malformed(const Reply &base, vh::Rng &r) {
     for (int tries = 0; tries < 8; ++tries) {
